@@ -36,6 +36,12 @@ H3Error verif_polyprims(const GeoPolygon *polygon, H3Index cell, int out[8]) {
         H3Index polygonCell;
         if (!H3_EXPORT(latLngToCell)(&firstVertex, cellRes, &polygonCell)) out[1] = (polygonCell == cell);
     }
+    // (first vertex of a hole in the cell: same predicate, polyfill.c handles holes like the outer loop)
+    for (int i = 0; i < polygon->numHoles; i++) {
+        if (polygon->holes[i].numVerts == 0 || !bboxContains(&VALID_RANGE_BBOX, &polygon->holes[i].verts[0])) continue;
+        H3Index hc;
+        if (!H3_EXPORT(latLngToCell)(&polygon->holes[i].verts[0], cellRes, &hc) && hc == cell) out[1] = 1;
+    }
     CellBoundary boundary;
     e = H3_EXPORT(cellToBoundary)(cell, &boundary);
     if (e) { free(bboxes); return e; }
@@ -70,6 +76,11 @@ static H3Error verif_polyprims2(const GeoPolygon *polygon, const BBox *bboxes, H
     if (bboxContains(&VALID_RANGE_BBOX, &firstVertex)) {
         H3Index polygonCell;
         if (!H3_EXPORT(latLngToCell)(&firstVertex, cellRes, &polygonCell)) out[1] = (polygonCell == cell);
+    }
+    for (int i = 0; i < polygon->numHoles; i++) {
+        if (polygon->holes[i].numVerts == 0 || !bboxContains(&VALID_RANGE_BBOX, &polygon->holes[i].verts[0])) continue;
+        H3Index hc;
+        if (!H3_EXPORT(latLngToCell)(&polygon->holes[i].verts[0], cellRes, &hc) && hc == cell) out[1] = 1;
     }
     CellBoundary boundary;
     e = H3_EXPORT(cellToBoundary)(cell, &boundary);
